@@ -1,6 +1,9 @@
-\* bounded instance of XoHybrid.tla as the quick tier runs it (vlib/hybrid.py writes the same text at run time)
+\* bounded instance of XoHybrid.tla as the quick tier runs it (vlib/hybrid.py writes the same text at run time).
+\* The populations that start with five objects are run separately by the quick tier:
+\*   Scens = {8} MaxDepth = 3 MaxH = 6 WSlots = {"a","h","w"}   (Wrap: a nested part holding a reference)
+\*   Scens = {9} MaxDepth = 3 MaxH = 6 WSlots = {"a","p","w"}   (Pair / WrapPair: two references per object)
 SPECIFICATION Spec
-CONSTANTS Scens = {1,2,3,4,5,6,7,8} MaxDepth = 4 MaxH = 3 Vals = {1} WSlots = {"a","x","arr"} Bufs = {1,2} Bug = FALSE
+CONSTANTS Scens = {1,2,3,4,5,6,7} MaxDepth = 4 MaxH = 3 Vals = {1} WSlots = {"a","x","arr"} Bufs = {1,2} Bug = FALSE
 INVARIANT Mirror
 INVARIANT CopyIndependent
 INVARIANT PartsInside
